@@ -21,27 +21,27 @@ HC = EL + "::handle_containment"
 
 
 def run(prog, chk):
-    hygiene(prog, chk)
-    wiring(prog, chk)
-    errors(prog, chk)
-    accumulator(prog, chk)
+    chk.rule(hygiene, prog, chk)
+    chk.rule(wiring, prog, chk)
+    chk.rule(errors, prog, chk)
+    chk.rule(accumulator, prog, chk)
     from props import geomalg
-    geomalg.check_sites(prog, chk, "C12")
-    geomalg.check_float_truncation(prog, chk)  # no float is cut down to an integer on the way (a truncated distance / coordinate makes different candidates tie)
-    geomalg.check(prog, chk, "C12", floor=17)
+    chk.rule(geomalg.check_sites, prog, chk, "C12")
+    chk.rule(geomalg.check_float_truncation, prog, chk)  # no float is cut down to an integer on the way (a truncated distance / coordinate makes different candidates tie)
+    chk.rule(geomalg.check, prog, chk, "C12", floor=17)
     from props import C11
-    C11.shape_pipeline(prog, chk)  # surround/inside/margin are consumed only in the shape pipeline
-    all_boxes_combined(prog, chk)
+    chk.rule(C11.shape_pipeline, prog, chk)  # surround/inside/margin are consumed only in the shape pipeline
+    chk.rule(all_boxes_combined, prog, chk)
     from props import C10
-    C10.containment_every_target(prog, chk)  # every listed element contributes its box
-    C10.registration(prog, chk)  # ... its resolved box: a listed element that failed in this pass is not visible to later siblings
-    C10.registration_keys_agree(prog, chk)
-    C11.extraction_algebra(prog, chk)  # the box a listed circle / ellipse offers follows from r / rx / ry, not from a stray width / height
+    chk.rule(C10.containment_every_target, prog, chk)  # every listed element contributes its box
+    chk.rule(C10.registration, prog, chk)  # ... its resolved box: a listed element that failed in this pass is not visible to later siblings
+    chk.rule(C10.registration_keys_agree, prog, chk)
+    chk.rule(C11.extraction_algebra, prog, chk)  # the box a listed circle / ellipse offers follows from r / rx / ry, not from a stray width / height
     from props import C08
-    C08.degenerate_boxes(prog, chk)  # `inside`: an intersection of zero width / height is still a region
-    inscribed_for_placed_shape(prog, chk)
+    chk.rule(C08.degenerate_boxes, prog, chk)  # `inside`: an intersection of zero width / height is still a region
+    chk.rule(inscribed_for_placed_shape, prog, chk)
     from props import strops
-    strops.check_for(prog, chk, "C12")  # A14.str-ops: how this property's strings are cut up is a reviewed, frozen inventory
+    chk.rule(strops.check_for, prog, chk, "C12")  # A14.str-ops: how this property's strings are cut up is a reviewed, frozen inventory
 
 
 def _lit(body, t, i):
